@@ -887,8 +887,9 @@ def gen_coarse(rng):
             "flow": lambda t: (v0 * t, v0 + 0.0 * t)}
 
 
-def gen_scenario(rng, fam):
+def gen_scenario(rng, fam, kind=None, direction=None):
     """random oscillator scenario; returns dict or None when the event is not clean enough for an unambiguous reference"""
+    force_kind, force_direction = kind, direction
     w = 1.0 if fam == "ham" else rng.choice([0.5, 1.0, 2.0, 3.0])
     A = rng.uniform(0.3, 2.0)
     phi = rng.uniform(-math.pi, math.pi)
@@ -896,6 +897,8 @@ def gen_scenario(rng, fam):
     t0 = rng.choice([0.0, 0.0, rng.uniform(-2, 2)]) if fam == "gen" else 0.0
     h = rng.choice([0.01, 0.02, 0.04]) / w
     kind = rng.choice(["affine", "affine", "quad", "prod", "near", "onsurf"] + (["timedep"] if fam == "gen" else []))
+    if force_kind is not None:
+        kind = force_kind
     x0, v0 = osc_exact(A, w, phi, t0)
     a = [0.0] * 5
     if kind in ("affine", "near", "onsurf"):
@@ -915,6 +918,10 @@ def gen_scenario(rng, fam):
     elif kind == "prod":
         a[3] = 1.0
         c = rng.uniform(-0.6, 0.6) * 0.5 * A * A * w
+    elif kind == "clock":
+        # purely time-dependent event "stop at time t*": g = t - t*
+        a[4] = 1.0
+        c = t0 + rng.uniform(0.2, 0.8) * T
     else:
         a[0] = 1.0
         a[4] = rng.uniform(-0.2, 0.2) * A * w
@@ -924,6 +931,8 @@ def gen_scenario(rng, fam):
         if kind == "quad":
             return None
     direction = rng.choice([-1, 0, 1])
+    if force_direction is not None:
+        direction = force_direction
     xtol = rng.choice([1e-12, 1e-12, 1e-10, 1e-8, 1e-6, 1e-4])
     gtol = rng.choice([1e-12, 1e-12, 1e-15, 1e-9, 1e-6])
     # scale of the event function: separates the roles of xtol (time) and gtol (value)
@@ -1166,6 +1175,86 @@ def cr3bp_checks(ctx, worst):
                 {"system": "CR3BP mu=%r" % mu, "y0": y0.tolist(), "t0": t0w, "tmax": T, "backward_reference_crossings_elapsed": back[:4]}))
 
 
+def backward_checks(ctx, worst):
+    """backward spans (negative steps): the grid drivers on a strictly DECREASING time grid, and every driver on a `_DirectedSystem(.., -1)`
+    (how `_propagate_dynsys(forward=-1)` and the single-hit backend run them).  Oscillator with exact flow, affine event, all direction
+    filters; "first" and "direction" are meant along the integration, i.e. in s = |t - t0|."""
+    from hiten.algorithms.dynamics.base import _DirectedSystem
+    from hiten.algorithms.types.configs import EventConfig
+    from hiten.algorithms.types.options import EventOptions
+    rng = ctx.rng
+    for fam, drivers in (("gen", DRIVERS_GEN), ("ham", DRIVERS_HAM)):
+        sysm, gfn = systems()[fam]
+        ix, iv = (0, 1) if fam == "gen" else (0, 3)
+        for driver in drivers:
+            grid = driver.startswith("fixed") or driver == "symplectic"
+            modes = (["descending-grid"] if driver.startswith("fixed") else []) + ["directed-system"]
+            for mode in modes:
+                for direction in (0, 1, -1):
+                    w = 1.0
+                    A = rng.uniform(0.5, 1.5)
+                    phi = rng.uniform(-math.pi, math.pi)
+                    T = rng.uniform(5.0, 8.0)
+                    h = 0.02
+                    frac = rng.uniform(0.2, 0.7) * rng.choice([-1, 1])
+                    c = frac * A
+                    Gb = lambda ss: A * np.cos(w * (-np.asarray(ss)) + phi) - c          # event along the backward trajectory, s = -(t - t0)
+                    zs = ref_crossings(Gb, 0.0, T)
+                    adm = [z for z in zs if direction == 0 or z[1] == direction]
+                    if not zs or zs[0][0] < 10 * h or any(b[0] - a[0] < 10 * h for a, b in zip(zs, zs[1:])) or (adm and T - adm[0][0] < 10 * h):
+                        continue
+                    x0, v0 = osc_exact(A, w, phi, 0.0)
+                    y0 = np.array([x0, v0, w, 1.0, 0.0, 0.0, 0.0, 0.0, c]) if fam == "gen" else np.array([x0, 1.0, 0.0, v0, 0.0, c])
+                    n = int(round(T / h))
+                    integ, idesc = make_integrator(driver, rng, 4 * h)
+                    xtol, gtol = 1e-10, 1e-12
+                    if mode == "descending-grid":
+                        tv, system = -np.linspace(0.0, T, n + 1), sysm
+                    else:
+                        tv, system = np.linspace(0.0, T, n + 1), _DirectedSystem(sysm, -1)
+                    ctx.case(("backward", driver, mode, direction, round(A, 6), round(phi, 6)), kind="numeric:backward:%s:%s" % (driver, mode))
+                    rep = {"system": "oscillator (%s)" % fam, "driver": driver, "integrator": idesc, "mode": mode, "y0": y0.tolist(), "T": T, "steps": n,
+                           "event": "g = x - c", "c": c, "direction": direction, "xtol": xtol, "gtol": gtol,
+                           "reference_zeros(s,dir)": [(float(a), int(b)) for a, b in zs[:6]]}
+                    try:
+                        sol = integ.integrate(system, y0.copy(), tv, event_fn=gfn, event_cfg=EventConfig(direction=direction, terminal=True),
+                                              event_options=EventOptions(xtol=xtol, gtol=gtol))
+                    except Exception as ex:
+                        worst.setdefault("%s:backward-raises" % driver, []).append(("event integration on a backward span (%s) raised %r" % (mode, ex), rep))
+                        continue
+                    s_end = abs(float(sol.times[-1]))
+                    y_end = np.array(sol.states[-1], dtype=float)
+                    ex_state = np.array(osc_exact(A, w, phi, -s_end))
+                    state_err = float(np.max(np.abs(y_end[[ix, iv]] - ex_state)))
+                    # accuracy the same integrator achieves on the same span without an event (the symplectic scheme is less accurate than
+                    # its nominal order, see C16): the event location may not add more than the dense-output error to it
+                    plain = integ.integrate(system, y0.copy(), tv)
+                    err_plain = float(np.max(np.abs(np.asarray(plain.states)[:, [ix, iv]] - np.array([osc_exact(A, w, phi, -abs(float(t))) for t in plain.times]))))
+                    E = 50 * err_plain + 5 * ((h * w) ** 4 if grid else 100 * idesc["rtol"]) * A + 1e-9
+                    rep["plain_integration_error"] = err_plain
+                    rep.update({"observed_s": s_end, "observed_state": y_end[[ix, iv]].tolist(), "state_error_vs_exact_flow": state_err})
+                    if not adm:
+                        if abs(s_end - T) > 1e-9:
+                            worst.setdefault("%s:backward:spurious-event" % driver, []).append((
+                                "backward span (%s): reports an event at s=%.12g although no admissible crossing exists" % (mode, s_end), rep))
+                        continue
+                    s_ref = adm[0][0]
+                    dG = abs(A * w * math.sin(w * (-s_ref) + phi))
+                    tol_t = 4 * xtol + (4 * gtol + E) / dG + 1e-11
+                    g_end = float(gfn(float(sol.times[-1]), np.ascontiguousarray(y_end)))
+                    rep.update({"expected_first_admissible_s": s_ref, "time_tolerance": tol_t, "g_at_event": g_end})
+                    if abs(s_end - s_ref) > tol_t:
+                        worst.setdefault("%s:backward:time-accuracy" % driver, []).append((
+                            "backward span (%s): event reported after |t - t0| = %.12g, the first admissible crossing along the backward trajectory is at %.12g "
+                            "(difference %.3g, tolerance %.3g)" % (mode, s_end, s_ref, abs(s_end - s_ref), tol_t), rep))
+                    elif state_err > E:
+                        worst.setdefault("%s:backward:off-trajectory" % driver, []).append((
+                            "backward span (%s): state at the event is off the exact backward trajectory by %.3g (tolerance %.3g)" % (mode, state_err, E), rep))
+                    elif abs(g_end) > 4 * max(gtol, A * w * 2 * xtol) + 1e-13:
+                        worst.setdefault("%s:backward:g-not-zero" % driver, []).append((
+                            "backward span (%s): |g| at the reported event is %.3g" % (mode, abs(g_end)), rep))
+
+
 def numerics(ctx):
     rng = ctx.rng
     systems()
@@ -1176,6 +1265,23 @@ def numerics(ctx):
         done = 0
         tries = 0
         forced = [gen_coarse(rng) for _ in range(3)] if fam == "gen" else []
+        if fam == "gen":
+            # explicitly time-dependent events (the event function must be evaluated at the time of the state it is given)
+            for k_ in ("clock", "clock", "timedep"):
+                for _ in range(200):
+                    sc_ = gen_scenario(rng, fam, kind=k_, direction=rng.choice([0, 1]) if k_ == "clock" else None)
+                    if sc_ is not None:
+                        forced.append(sc_)
+                        break
+        # start points exactly ON the surface (g(t0, y0) == 0.0), every direction filter, leaving towards g > 0 and towards g < 0:
+        # the start is not a crossing; the first admissible crossing after it must be reported
+        for d_ in (-1, 0, 1):
+            for leave in (1, -1):
+                for _ in range(200):
+                    sc_ = gen_scenario(rng, fam, kind="onsurf", direction=d_)
+                    if sc_ is not None and np.sign(sc_["flow"](sc_["t0"])[1] * sc_["a"][0]) == leave:
+                        forced.append(sc_)
+                        break
         while done < n_sc + len(forced) and tries < 40 * n_sc:
             tries += 1
             sc = forced[done] if done < len(forced) else gen_scenario(rng, fam)
@@ -1190,6 +1296,7 @@ def numerics(ctx):
                     nprob += 1
                     worst.setdefault(key, []).append((what, rep))
     cr3bp_checks(ctx, worst)
+    backward_checks(ctx, worst)
     # ---- first admissible step on the compiled grid drivers, decided by the Lean scan from their own trajectories
     gc = ctx.extra.pop("_grid_checks", [])
     if gc:
